@@ -363,7 +363,7 @@ class Atheris(core.Part):
                     if 0 < len(b) <= 24:
                         f.write('"%s"\n' % ''.join('\\x%02x' % c for c in b))
             cmd = [sys.executable, '-m', 'vf.fuzz_atheris', '-runs=%d' % self.runs[tier], '-max_len=1024', '-len_control=20',
-                   '-dict=' + dict_path,
+                   '-dict=' + dict_path, '-artifact_prefix=' + tmp + os.sep,
                    '-seed=%d' % (seed * 64 + k + 1), '-timeout=60', '-rss_limit_mb=3000', '-print_final_stats=1', corpus_dir]
             proc = subprocess.run(cmd, cwd=env.VERIF_DIR, env=envv, stdout=subprocess.PIPE, stderr=subprocess.STDOUT, timeout=7200)
             log = proc.stdout.decode('utf-8', 'replace')
